@@ -152,7 +152,7 @@ def build_harness(fam, variant=""):
     return binp, "built"
 
 SAN_ENV = {
-    "ASAN_OPTIONS": "abort_on_error=1:allocator_may_return_null=1:detect_leaks=1:detect_stack_use_after_return=0:handle_abort=0",
+    "ASAN_OPTIONS": "symbolize=0:abort_on_error=1:allocator_may_return_null=1:detect_leaks=1:detect_stack_use_after_return=0:handle_abort=0",
     "UBSAN_OPTIONS": "print_stacktrace=0:halt_on_error=1",
     "TSAN_OPTIONS": "halt_on_error=1:report_signal_unsafe=0",
     "LSAN_OPTIONS": "exitcode=23",
@@ -241,7 +241,22 @@ def shrink(binp, fail, known_ids, budget_s=20):
             if x["kind"] == kind:
                 return x
         return None
-    best = fail; changed = True
+    best = fail
+    # operation lists (ops=a;b;c): drop operations while the failure persists
+    toks = best["line"].split(" => ")[0].split(" ")
+    for ti, t in enumerate(toks):
+        if t.startswith("ops=") and ";" in t:
+            ops = t[4:].split(";")
+            i = len(ops) - 1
+            while i >= 0 and time.time() - t0 < budget_s:
+                cand_ops = ops[:i] + ops[i + 1:]
+                if cand_ops:
+                    cand = " ".join(toks[:ti] + ["ops=" + ";".join(cand_ops)] + toks[ti + 1:])
+                    got = still_fails(cand)
+                    if got:
+                        ops = cand_ops; best = got; toks = cand.split(" ")
+                i -= 1
+    changed = True
     while changed and time.time() - t0 < budget_s:
         changed = False
         toks = best["line"].split(" => ")[0].split(" ")
